@@ -162,6 +162,12 @@ HISTORY = {
     "C18-10": ("caught (round 6)", ""),
     "C19-10": ("caught (round 6)", ""),
     "C20-10": ("caught by C19 only, for a neighbouring reason (round 6)", "C20 rollback-discards-suffix `memory/rollback_group_to_snapshot/consumes-the-snapshot`"),
+    "C03-11": ("caught (round 7)", ""),
+    "C04-11": ("caught (round 7)", ""),
+    "C06-11": ("caught (round 7)", ""),
+    "C10-11": ("missed (round 7)", "C09 memory-scope `filter-by-group-only` / C10 `snapshot-filter-agreement`: every entry-selecting closure of the memory backend's snapshot / restore selects by the group id alone"),
+    "C11-11": ("caught (round 7)", ""),
+    "C15-11": ("caught, but by a brittle count of `try_into` calls that also fired on the correct refactor R2-6 (round 7)", "C15 extension-wiring `checked-conversions/<field>`: per optional field, an exact-length conversion and no prefix-taking call on its data path"),
 }
 rows = ["| id | change (needs) | first | now caught by | strengthened |", "|----|----------------|-------|---------------|--------------|"]
 sd = os.path.join(VERIF, "seeded")
